@@ -515,6 +515,10 @@ impl SATSolver {
     }
 
     pub fn cur_hash(&self) -> u128 {
+        #[cfg(feature = "verif")]
+        if let Some(bits) = crate::verif::residual_hash_bits() {
+            return self.top_state().hash & ((1u128 << bits) - 1);
+        }
         self.top_state().hash
     }
 
